@@ -1,4 +1,5 @@
 import CobyqaVerif.Model.Value
 import CobyqaVerif.Model.Filter
 import CobyqaVerif.Model.SpecC03
+import CobyqaVerif.Model.Run
 import CobyqaVerif.Props.C03
